@@ -192,4 +192,33 @@ theorem printf_translated {s : St} (h : Inv s) {v : Nat} (hv : v < s.n) (out : L
               Option.bind_assoc, this, fit]
             cases wr blk3.bytes 0 (List.map some out ++ [some 0]) <;> simp
 
+/-- `clear()` is the model's `clear` -/
+theorem clear_translated {s : St} (h : Sane s) (v : Nat) : Body.clear s v = clear s v := by
+  have hd := h.desc v
+  unfold Body.clear clear
+  cases hloc : s.vars v with
+  | empty => simp [desc, hloc, dRef, setData, setEmpty, release, setVar]
+  | foreign r off len => simp [desc, hloc, dRef, setData, setEmpty, release, setVar]
+  | blk b =>
+    cases hb : s.heap b with
+    | none => simp [desc, hloc, hb] at hd
+    | some blk =>
+      have r0 := h.pos b blk hb
+      by_cases r1 : blk.ref = 1
+      · simp [desc, hloc, hb, dRef, r1, setLen, updBlk, dStr, storeChar, memOf, writeOwn, upd_upd_same, Option.bind_assoc]
+      · have : blk.ref - 1 ≠ 0 := by omega
+        simp [desc, hloc, hb, dRef, r1, r0, atomicDec, deleteData, setData, setEmpty, release, setVar, this, upd_upd_same]
+
+/-- `capacity()` and `isEmpty()` are the model's (on every state) -/
+theorem capacity_isEmpty_translated (s : St) (v : Nat) :
+    Body.capacity s v = capacity s v ∧ Body.isEmpty s v = isEmpty s v := by
+  unfold Body.capacity Body.isEmpty capacity isEmpty
+  cases hloc : s.vars v with
+  | empty => simp [desc, hloc, dRef, dLen]
+  | foreign r off len => simp [desc, hloc, dRef, dLen, dec_beq0]
+  | blk b =>
+    cases hb : s.heap b with
+    | none => simp [desc, hloc, hb, dRef, dLen]
+    | some blk => by_cases r1 : blk.ref = 1 <;> simp [desc, hloc, hb, dRef, dLen, dCap, r1, dec_beq0]
+
 end Nstd.Str
